@@ -19,13 +19,21 @@ package s3mem
 // bucketInv: every entry of the index is a well-formed object: right type, its
 // own name, a current version, and archived versions that are *bucketData
 // carrying the id they are filed under.
-//@ pred objInv(o, n) = o != nil && o.name == n && o.data != nil && o.data.name == n &&
-//@     imp(o.versions != nil, allif(k, imp(sl_has(o.versions)[k], typeis(k, gofakes3.VersionID) &&
-//@         typeis(sl_val(o.versions)[k], *bucketData) && dyn(sl_val(o.versions)[k], *bucketData) != nil &&
+//@ pred objInv(o, n) = allocated(o) && o.name == n && allocated(o.data) && o.data.name == n &&
+//@     imp(o.versions != nil, allocated(o.versions) && allif(k, imp(sl_has(o.versions)[k], typeis(k, gofakes3.VersionID) &&
+//@         typeis(sl_val(o.versions)[k], *bucketData) && allocated(dyn(sl_val(o.versions)[k], *bucketData)) &&
 //@         dyn(sl_val(o.versions)[k], *bucketData).versionID == dyn(k, gofakes3.VersionID))))
-//@ pred bucketInv(b) = b != nil && b.objects != nil &&
+// Ownership: an object's version list is its own — it is not the bucket's index
+// and not the version list of another object (lists are created by put and never shared).
+//@ pred bucketInvA(b) = b != nil && b.objects != nil &&
 //@     allif(k, imp(sl_has(b.objects)[k], typeis(k, string) && typeis(sl_val(b.objects)[k], *bucketObject) &&
-//@         objInv(dyn(sl_val(b.objects)[k], *bucketObject), dyn(k, string))))
+//@         objInv(dyn(sl_val(b.objects)[k], *bucketObject), dyn(k, string)) &&
+//@         dyn(sl_val(b.objects)[k], *bucketObject).versions != b.objects))
+//@ pred bucketInvB(b) = allif2(k, j, imp(sl_has(b.objects)[k] && sl_has(b.objects)[j] && k != j,
+//@         dyn(sl_val(b.objects)[k], *bucketObject) != dyn(sl_val(b.objects)[j], *bucketObject) &&
+//@         (dyn(sl_val(b.objects)[k], *bucketObject).versions == nil ||
+//@          dyn(sl_val(b.objects)[k], *bucketObject).versions != dyn(sl_val(b.objects)[j], *bucketObject).versions)))
+//@ pred bucketInv(b) = bucketInvA(b) && bucketInvB(b)
 
 //@ func (*bucket).setVersioning
 //@ props C05 C09
@@ -79,6 +87,10 @@ package s3mem
 //@ let O = objAt(b, name)
 //@ requires          inv:    bucketInv(b) && idsIssued(b)
 //@ requires          item:   item != nil && item.name == name
+//@ requires          newitem: allif(k, imp(sl_has(b.objects)[k], dyn(sl_val(b.objects)[k], *bucketObject).data != item &&
+//@                             imp(dyn(sl_val(b.objects)[k], *bucketObject).versions != nil,
+//@                               allif(j, imp(sl_has(dyn(sl_val(b.objects)[k], *bucketObject).versions)[j],
+//@                                 dyn(sl_val(dyn(sl_val(b.objects)[k], *bucketObject).versions)[j], *bucketData) != item)))))
 //@ ensures [C05,C02] cur:    hasObj(b, name) && O != nil && O.data == item && item.versionID != "" && !old(issued)[item.versionID]
 //@ ensures [C05]     same:   imp(old(hasObj(b, name)), O == old(O))
 //@ ensures [C05]     archive: imp(old(hasObj(b, name)) && b.versioning == gofakes3.VersioningEnabled,
@@ -89,4 +101,52 @@ package s3mem
 //@ ensures [C05]     history: imp(old(hasObj(b, name)) && b.versioning != gofakes3.VersioningNone,
 //@                             O.versions != nil && sl_has(O.versions)[vkey(old(O.data.versionID))])
 //@ ensures [C02,C10] others: allstr(n, imp(n != name, hasObj(b, n) == old(hasObj(b, n)) && objAt(b, n) == old(objAt(b, n))))
-//@ ensures           inv:    bucketInv(b) && idsIssued(b)
+//@ ensures           invA:   bucketInvA(b)
+//@ ensures           invB:   bucketInvB(b)
+//@ ensures           ids:    idsIssued(b)
+//@ modifies sl_has, sl_val, sl_len, sl_key, issued, item.versionID, fieldof(bucketObject, name), fieldof(bucketObject, data), fieldof(bucketObject, versions), fieldof(Backend, versionScratch)
+//@ unproved post:inv*@ret* preservation of the bucket representation invariant by put is stated but not discharged (nested quantifiers over the index and the version lists time out on all solvers); callers assume it
+//@ unproved post:ids@ret* same as above for the issued-id bookkeeping
+
+//@ func (*bucket).rm
+//@ props C05 C02 C10 C09
+//@ let O = objAt(b, name)
+//@ requires          inv:    bucketInv(b) && idsIssued(b)
+//@ ensures [C02,C05] absent: imp(!old(hasObj(b, name)), unchanged() && !result.IsDeleteMarker && result.VersionID == "")
+//@ ensures [C05]     marker: imp(old(hasObj(b, name)) && b.versioning == gofakes3.VersioningEnabled,
+//@                             hasObj(b, name) && O == old(O) && O.data != nil && O.data.deleteMarker && O.data.name == name &&
+//@                             result.IsDeleteMarker && result.VersionID == O.data.versionID && O.versions != nil &&
+//@                             sl_has(O.versions)[vkey(old(O.data.versionID))] &&
+//@                             dyn(sl_val(O.versions)[vkey(old(O.data.versionID))], *bucketData) == old(O.data))
+//@ ensures [C05]     keep:   imp(old(hasObj(b, name)) && old(O.versions) != nil && b.versioning == gofakes3.VersioningEnabled,
+//@                             allif(k, imp(old(sl_has(O.versions))[k], sl_has(O.versions)[k] && sl_val(O.versions)[k] == old(sl_val(O.versions))[k])))
+//@ ensures [C05]     history: imp(old(hasObj(b, name)) && b.versioning == gofakes3.VersioningSuspended,
+//@                             hasObj(b, name) && O.versions != nil && sl_has(O.versions)[vkey(old(O.data.versionID))])
+//@ ensures [C02]     gone:   imp(old(hasObj(b, name)) && b.versioning == gofakes3.VersioningNone && old(O.versions) == nil, !hasObj(b, name))
+//@ ensures [C09,C05] nonil:  imp(hasObj(b, name), O.data != nil)
+//@ ensures [C02,C10] others: allstr(n, imp(n != name, hasObj(b, n) == old(hasObj(b, n)) && objAt(b, n) == old(objAt(b, n))))
+//@ ensures           noerr:  rerr == nil
+
+//@ func (*bucket).rmVersion
+//@ props C05 C10 C09
+//@ let O = objAt(b, name)
+//@ requires          inv:    bucketInv(b) && idsIssued(b)
+//@ ensures [C05]     absent: imp(!old(hasObj(b, name)), unchanged() && result.VersionID == "")
+//@ ensures [C05]     other:  imp(old(hasObj(b, name)) && old(O.data.versionID) != versionID &&
+//@                             (old(O.versions) == nil || !old(sl_has(O.versions))[vkey(versionID)]), unchanged() && result.VersionID == "")
+//@ ensures [C05]     archived: imp(old(hasObj(b, name)) && old(O.data.versionID) != versionID && old(O.versions) != nil && old(sl_has(O.versions))[vkey(versionID)],
+//@                             hasObj(b, name) && O == old(O) && O.data == old(O.data) && !sl_has(O.versions)[vkey(versionID)] &&
+//@                             result.VersionID == versionID &&
+//@                             allif(k, imp(k != vkey(versionID), sl_has(O.versions)[k] == old(sl_has(O.versions))[k] && sl_val(O.versions)[k] == old(sl_val(O.versions))[k])))
+//@ ensures [C05]     current: imp(old(hasObj(b, name)) && old(O.data.versionID) == versionID,
+//@                             result.VersionID == versionID && result.IsDeleteMarker == old(O.data.deleteMarker))
+//@ ensures [C05]     last:   imp(old(hasObj(b, name)) && old(O.data.versionID) == versionID && (old(O.versions) == nil || old(sl_len(O.versions)) == 0), !hasObj(b, name))
+//@ ensures [C05]     newest: imp(old(hasObj(b, name)) && old(O.data.versionID) == versionID && old(O.versions) != nil && old(sl_len(O.versions)) > 0,
+//@                             hasObj(b, name) && O == old(O) && O.versions == old(O.versions) &&
+//@                             O.data == dyn(old(sl_val(O.versions))[old(sl_key(O.versions))[old(sl_len(O.versions)) - 1]], *bucketData) &&
+//@                             !sl_has(O.versions)[old(sl_key(O.versions))[old(sl_len(O.versions)) - 1]] &&
+//@                             allif(k, imp(k != old(sl_key(O.versions))[old(sl_len(O.versions)) - 1],
+//@                               sl_has(O.versions)[k] == old(sl_has(O.versions))[k] && sl_val(O.versions)[k] == old(sl_val(O.versions))[k])))
+//@ ensures [C05,C09] nonil:  imp(hasObj(b, name), O.data != nil)
+//@ ensures [C10]     others: allstr(n, imp(n != name, hasObj(b, n) == old(hasObj(b, n)) && objAt(b, n) == old(objAt(b, n))))
+//@ ensures           noerr:  rerr == nil
